@@ -1023,6 +1023,8 @@ func generate(seed int64, n int) []*Case {
 	for i := 0; i < n/6; i++ {
 		res = append(res, poolCase(r, n+n*5/2+1000+4*n+i))
 	}
+	// stream 2, deterministic part: stored label documents cut at every byte position on the series endpoints
+	res = append(res, labelDocCases(seed, n*9+3000)...)
 	decoratePool(seed, res)
 	return res
 }
